@@ -182,8 +182,9 @@ def build_structured(shape, names, vals, layout, order, swapped=()):
     ("offsets")"""
     k = len(names)
     other = np.dtype(np.float64).newbyteorder()  # float64 in the byte order that is not the machine's
-    if swapped and layout is not None:
-        raise BadCase("fields in the other byte order: packed layout only")
+    swapped = [int(i) for i in swapped]
+    if any(i < 0 or i >= k for i in swapped):
+        raise BadCase("swapped field index")
     if layout is None:
         data = alloc(shape, [(n, other if i in swapped else np.float64) for i, n in enumerate(names)], order)
     elif layout.get("via") == "select":
@@ -195,7 +196,7 @@ def build_structured(shape, names, vals, layout, order, swapped=()):
         members, extra = [], 0
         for i, f in rec:
             if i >= 0:
-                members.append((names[i], f))
+                members.append((names[i], other if i in swapped else f))
             else:
                 while f"other{extra}" in names:
                     extra += 1
@@ -211,7 +212,8 @@ def build_structured(shape, names, vals, layout, order, swapped=()):
             raise BadCase("offsets outside the record")
         if any(abs(a - b) < 8 for i, a in enumerate(offs) for b in offs[i + 1:]):
             raise BadCase("overlapping fields")
-        data = alloc(shape, np.dtype({"names": list(names), "formats": ["<f8"] * k, "offsets": offs, "itemsize": size}), order)
+        data = alloc(shape, np.dtype({"names": list(names), "formats": [other if i in swapped else np.dtype(np.float64) for i in range(k)],
+                                       "offsets": offs, "itemsize": size}), order)
     else:
         raise BadCase(f"layout {layout!r}")
     for n, v in zip(names, vals):
@@ -788,6 +790,8 @@ def gen_vtk_case(rng):
         case["layout"] = layout
     if rng.random() < 0.5:
         case["order"] = rng.choice(ORDERS[1:])
+    if rng.random() < 0.2:  # fields stored in the byte order that is not the machine's: all of them, or some
+        case["swapped_fields"] = list(range(nf)) if rng.random() < 0.4 else sorted(rng.sample(range(nf), rng.randint(1, nf)))
     if rng.random() < 0.15:
         case["spacing_as"] = rng.choice(SPACING_AS[1:])
     if rng.random() < 0.1:
@@ -945,7 +949,8 @@ class C16(Prop):
             "specification), its header text by the Lean reader, and the whole file is compared byte for byte with "
             "the Lean rendering (header text, every appended byte, closing text), the appended bytes also by the Lean "
             "byte-level reader; spacings as tuples, lists, NumPy scalars and arrays, extreme spacings, very long and "
-            "non-ASCII names, large images (to 12100 cells), paths given as str; text arrays also in the other byte "
+            "non-ASCII names, large images (to 12100 cells), paths given as str, fields stored in the byte order that is not the "
+            "machine's (all or some: the bytes written must be in the declared, native, order); text arrays also in the other byte "
             "order and as unaligned field views, large images (one line of more than 64 KiB, 6000 values); SESSIONS "
             "(16 % of the generated cases, 47 targeted): 2 - 10 calls in one fresh process - save, files of another "
             "tool, load with delimiter ',' ';' tab or default and name=, vtk.save with other spacings / element sets / "
@@ -976,8 +981,7 @@ class C16(Prop):
                    "(session:load:outside-the-property-text:*), never a verdict (notes/SECTION13.md 13.2)",
                    "the field name of the view returned for name= is recorded, not compared; its shape and values are",
                    "one-character delimiters only; the comments= option of load is never passed",
-                   "structured images with a float64 field in the byte order that is not the machine's are not generated "
-                   "(pewlib writes their bytes unswapped under the machine's byte_order: see notes/EC16.md)",
+
                    "headers holding a carriage return and element names holding control or white-space characters "
                    "other than a space are not generated (see notes/D16.md: pewlib does not round-trip them)"]
 
@@ -986,8 +990,6 @@ class C16(Prop):
         lists them)"""
         if case.get("kind") == "text" and "\r" in (case.get("header") or ""):
             return "C16-header-carriage-return"
-        if any(c.get("swapped_fields") for c in [case] + [st for st in case.get("steps", []) if st.get("op") == "vtk"]):
-            return "C16-vtk-field-in-other-byte-order"
         if case.get("kind") == "vtk":
             bad = [ch for n in case["names"] for ch in n if ch in "\t\r\n" or (ord(ch) < 32)]
             if any(ch in "\t\r\n" for ch in bad) and all(ch in "\t\r\n" for ch in bad):
@@ -1081,8 +1083,6 @@ class C16(Prop):
             yield {"kind": "text", "rows": 2, "cols": 1, "vals": [tok(1.0), tok(2.5)], "header": "a\r5"}
         if "C16-name-white-space" in registered:
             yield {"kind": "vtk", "shape": [1, 1], "names": ["a\tb"], "vals": [[tok(1.0)]], "spacing": [1, 1, 1]}
-        if "C16-vtk-field-in-other-byte-order" in registered:
-            yield {"kind": "vtk", "shape": [1, 1], "names": ["A"], "vals": [[tok(1.0)]], "spacing": [1, 1, 1], "swapped_fields": [0]}
         if "C16-name-control-character" in registered:
             yield {"kind": "vtk", "shape": [1, 1], "names": ["a\x01b"], "vals": [[tok(1.0)]], "spacing": [1, 1, 1]}
         # sessions: several calls in one process, each judged on its own
@@ -1142,6 +1142,16 @@ class C16(Prop):
         for order in TEXT_ORDERS[1:]:
             yield {"kind": "text", "rows": 3, "cols": 4, "vals": [tok(SPECIALS[i]) for i in range(12)], "header": None, "order": order}
             yield {"kind": "text", "rows": 4, "cols": 1, "vals": [tok(SPECIALS[i + 5]) for i in range(4)], "header": "h", "order": order, "strpath": True}
+        # fields in the byte order that is not the machine's (fix 6803b6f): all, some, with every layout and memory order
+        for shape in ([1, 1], [2, 3], [3, 1, 2]):
+            size = int(np.prod(shape))
+            base = {"kind": "vtk", "shape": shape, "names": ["A", "B<", "C"], "spacing": [1, 1, 1],
+                    "vals": [[tok(SPECIALS[(i + 7 * j) % len(SPECIALS)]) for i in range(size)] for j in range(3)]}
+            for sw in ([0], [1, 2], [0, 1, 2]):
+                yield {**base, "swapped_fields": sw}
+                yield {**base, "swapped_fields": sw, "order": "T", "layout": {"via": "select", "record": [[2, "<f8"], [-1, "u1"], [0, "<f8"], [1, "<f8"]], "align": False}}
+                yield {**base, "swapped_fields": sw, "order": "step", "layout": {"via": "offsets", "offsets": [16, 0, 8], "itemsize": 27}}
+        yield {"kind": "vtk", "shape": [1, 1], "names": ["A"], "vals": [[one]], "spacing": [1, 1, 1], "swapped_fields": [0]}
         # the spacing given as other objects than a tuple of Python numbers, the path as a string, very long names
         for how in SPACING_AS[1:]:
             yield {"kind": "vtk", "shape": [2, 3], "names": ["A", "B"], "vals": [[tok(float(i)) for i in range(6)], [tok(-float(i)) for i in range(6)]],
@@ -1553,6 +1563,7 @@ class C16(Prop):
             feats.add("value:nan")
         if case.get("swapped_fields"):
             feats.add("vtk:field-in-other-byte-order")
+            feats.add("vtk:field-in-other-byte-order:" + ("all" if len(set(case["swapped_fields"])) == len(names) else "some"))
         if any(isinstance(x, int) for x in spacing):
             feats.add("vtk:integer-spacing")
         if case.get("spacing_as", "tuple") != "tuple":
@@ -1686,6 +1697,8 @@ class C16(Prop):
             if len(names) > 1:
                 for i in range(len(names)):
                     cand = {**case, "names": names[:i] + names[i + 1:], "vals": vals[:i] + vals[i + 1:]}
+                    if "swapped_fields" in case:
+                        cand["swapped_fields"] = [j - (j > i) for j in case["swapped_fields"] if j != i]
                     if layout is not None and layout.get("via") == "select":
                         cand["layout"] = {**layout, "record": [[j - (j > i), f] for j, f in layout["record"] if j != i]}
                     elif layout is not None and layout.get("via") == "offsets":
@@ -1723,7 +1736,7 @@ class C16(Prop):
                         m = n[:j] + n[j + 1:]
                         if m and m not in names:
                             yield {**case, "names": names[:i] + [m] + names[i + 1:]}
-            for key in ("spacing_as", "strpath"):
+            for key in ("spacing_as", "strpath", "swapped_fields"):
                 if key in case:
                     yield {k: v for k, v in case.items() if k != key}
             if case["spacing"] != [1, 1, 1]:
